@@ -59,7 +59,7 @@ def ext_attr(I, modname, name):
         return VBuiltin(q)
     if modname in ("asyncio", "datetime", "xml.etree", "Crypto", "Crypto.Util", "Crypto.Cipher", "urllib", "xml") and name in ("ElementTree", "Util", "Cipher", "Random", "Padding", "AES", "parse"):
         return ExtModule(q)
-    if q == "datetime.datetime":
+    if q in ("datetime.datetime", "xml.etree.ElementTree"):
         return ExtModule(q)
     if q in ("datetime.timezone", ):
         return ExtModule(q)
@@ -424,6 +424,13 @@ def b_range(I, fv, args, kw):
         lo, hi, st = a[0], a[1], mkint(1)
     else:
         lo, hi, st = a
+    def pin(v):
+        if v.c is None and v.lo is not None and v.hi is not None and v.hi - v.lo <= 64:
+            for k in range(v.lo, v.hi + 1):
+                if I.path.known(ops.int_cmp("==", v, mkint(k)).term()):
+                    return mkint(k)
+        return v
+    lo, hi, st = pin(lo), pin(hi), pin(st)
     if lo.c is not None and hi.c is not None and st.c is not None:
         return I.new_list([mkint(k) for k in range(lo.c, hi.c, st.c)]) if abs((hi.c - lo.c)) <= 100000 else _unsup("huge range")
     ref = VRef(I.path.alloc(HObj("ext", None, meta={"tag": "range", "lo": lo, "hi": hi, "step": st})))
@@ -662,6 +669,8 @@ def m_bytes(I, fv, args, kw):
     name = fv.name.split(".")[-1]
     vb: VBytes = fv.self_val
     if name == "hex":
+        if vb.is_concrete():
+            return VStr(c=vb.concrete().hex())
         return I.opaque_str("hex", vb.key())
     if name == "tobytes":
         return vb.with_kind("bytes")
